@@ -1,15 +1,99 @@
-(* C05 - Torn-tail recovery yields exactly the fully written prefix
+(* C05 - Torn-tail recovery
    Property theorems only: statements, `exact <lemma>`, Print Assumptions, Check pins.
    Layers: F = documented format (Format.v), S = abstract spec (Spec/SpecStep), I = model of the Rust (World.step'). *)
 From Coq Require Import List NArith Bool Arith Sorted.
 From Coq Require Import Strings.Byte.
 Require Import BS.Bytes BS.Common BS.Api BS.Layout BS.Format BS.FormatFacts BS.Spec BS.SpecStep.
-Require Import BS.FS BS.FSFacts BS.Meta BS.MetaFacts BS.Header BS.Reader BS.ReaderFacts BS.Index BS.Data BS.DataFacts BS.Seek BS.Series BS.SeriesFacts.
+Require Import BS.FS BS.FSFacts BS.Meta BS.MetaFacts BS.Header BS.Reader BS.ReaderFacts BS.Index BS.Data BS.DataFacts BS.Seek BS.Series BS.SeriesFacts BS.ReadAllFacts BS.TotalFacts BS.ExtractFacts BS.OpenFacts BS.TornFacts.
 Import ListNotations.
+
+
 
 (* (F) an intact region recovers to all its lines and its whole length *)
 Theorem C05_recover_intact : forall (p:nat) (l:list line), wf_series p l ->
   recover p (encode p l) = Some (l, N.of_nat (length (encode p l))).
 Proof. exact recover_encode. Qed.
 Print Assumptions C05_recover_intact.
-(* partial: recover on every cut prefix and the repair pipeline of the model are not proved yet. *)
+
+(* (I refines S) FULL STATEMENT for payload sizes of 4 bytes and more, power-loss model and process-kill model alike.
+   Let l be ANY well-formed history that was being written, let the data file be cut at ANY byte length c (header intact),
+   and let the index file be absent or cut at ANY byte length ci - ahead of the data, behind it, inside an entry, inside its
+   header - independently of the data file; a leftover .part file may exist. Then opening succeeds, the handle represents
+   exactly firstn k l where k is the number of lines that were completely written before the cut (the encoding of k lines
+   fits into c bytes, that of k+1 lines does not): no partial, phantom, re-timed or reordered line; the data file is the
+   encoding of those k lines, the index file is rewritten or rebuilt to the index of that encoding; no other file changes. *)
+Theorem C05_open_after_crash : forall p, 4 <= p -> forall fs name uhdr popt hdropt cb l c,
+  let header := params_to_text BSgen.Consts.version (N.of_nat p) ++ uhdr in
+  wf_series p l -> c <= length (encode p l) -> (len header <= 65535)%N -> (len (encode p l) < 2^64)%N -> (N.of_nat p < 2^64)%N ->
+  fs_get fs (name ++ ext_data) = Some (outer header ++ firstn c (encode p l)) ->
+  index_state fs name (sections p (encode p l)) ->
+  (popt = None \/ popt = Some (N.of_nat p)) ->
+  match hdropt with HdrIs e => e = uhdr | HdrAny => True end ->
+  exists fs' s k, builder_open name popt hdropt [] cb fs = (fs', Ok (s, uhdr))
+    /\ k <= length l /\ length (encode p (firstn k l)) <= c /\ (k < length l -> c < length (encode p (firstn (S k) l)))
+    /\ RepH fs' s p (outer header) (outer []) (firstn k l) /\ s_cb s = cb
+    /\ (forall g, g <> name ++ ext_data -> g <> name ++ ext_index -> g <> name ++ ext_part -> fs_get fs' g = fs_get fs g).
+Proof. exact torn_open. Qed.
+Print Assumptions C05_open_after_crash.
+
+(* the repaired series accepts further appends and round-trips them *)
+Theorem C05_repair_then_append : forall p, 4 <= p -> forall fs name uhdr popt hdropt cb l c ts pay,
+  let header := params_to_text BSgen.Consts.version (N.of_nat p) ++ uhdr in
+  wf_series p l -> c <= length (encode p l) -> (len header <= 65535)%N -> (len (encode p l) < 2^64)%N -> (N.of_nat p < 2^64)%N ->
+  fs_get fs (name ++ ext_data) = Some (outer header ++ firstn c (encode p l)) ->
+  index_state fs name (sections p (encode p l)) ->
+  (popt = None \/ popt = Some (N.of_nat p)) ->
+  match hdropt with HdrIs e => e = uhdr | HdrAny => True end ->
+  exists fs' s k, builder_open name popt hdropt [] cb fs = (fs', Ok (s, uhdr)) /\ k <= length l
+    /\ (accepts p (firstn k l) ts pay = true -> (ts < 2^64)%N ->
+        exists fs'' s', push_line s ts pay fs' = (fs'', Ok s')
+          /\ forall lo hi, read_all s' lo hi fs'' = (fs'', Ok (select lo hi (firstn k l ++ [(ts, pay)])))
+                           \/ (select lo hi (firstn k l ++ [(ts, pay)]) = [] /\ read_all s' lo hi fs'' = (fs'', Err ERange))).
+Proof. exact torn_open_then_append. Qed.
+Print Assumptions C05_repair_then_append.
+
+(* the tail repair of the data file alone (FileWithInlineMeta::new) *)
+Theorem C05_tail_repair : forall p, 4 <= p -> forall fs o hdr l c, wf_series p l -> c <= length (encode p l) ->
+  file_is fs o hdr (firstn c (encode p l)) ->
+  exists fs' k, fwim_new o p fs = (fs', Ok tt) /\ k <= length l
+    /\ file_is fs' o hdr (encode p (firstn k l))
+    /\ length (encode p (firstn k l)) <= c
+    /\ (k < length l -> c < length (encode p (firstn (S k) l)))
+    /\ (forall g, g <> of_name o -> fs_get fs' g = fs_get fs g).
+Proof. exact fwim_new_torn. Qed.
+Print Assumptions C05_tail_repair.
+
+(* the index: whatever prefix of a longer history's index is found, it is accepted only when it is the index of the data *)
+Theorem C05_index_validation : forall fs name (esL:list entry) (j:nat) ci v t,
+  Forall entry_ok esL -> 1 <= j -> j <= length esL ->
+  (forall i e, nth_error esL i = Some e -> i < j -> (snd e <= v)%N /\ (fst e = t -> i = j - 1)) ->
+  (forall i e, nth_error esL i = Some e -> j <= i -> (v < snd e)%N /\ fst e <> t) ->
+  (forall e, nth_error esL (j - 1) = Some e -> fst e = t) ->
+  fs_get fs (name ++ ext_index) = Some (firstn ci (outer [] ++ enc_index esL)) ->
+  exists fs1 r, index_open name (Some v) (Some t) fs = (fs1, r)
+    /\ (forall g, g <> name ++ ext_index -> fs_get fs1 g = fs_get fs g)
+    /\ match r with
+       | Ok ix => ix = {| ix_file := {| of_name := name ++ ext_index; of_off := len (outer []) |};
+                          ix_entries := firstn j esL; ix_last := Some t |}
+                  /\ fs_get fs1 (name ++ ext_index) = Some (outer [] ++ enc_index (firstn j esL))
+       | Err _ => True
+       | _ => False
+       end.
+Proof. exact index_open_prefix. Qed.
+Print Assumptions C05_index_validation.
+
+(* ... and when it is not accepted, the rebuild writes the index of the data and removes the .part file *)
+Theorem C05_index_rebuild : forall p fs data hdr name l, wf_series p l ->
+  file_is fs data hdr (encode p l) ->
+  of_name data <> name ++ ext_part -> of_name data <> name ++ ext_index ->
+  exists fs' ix, create_from_byteseries data p name fs = (fs', Ok ix)
+    /\ fs_get fs' (name ++ ext_index) = Some (outer [] ++ enc_index (sections p (encode p l)))
+    /\ ix_file ix = {| of_name := name ++ ext_index; of_off := len (outer []) |}
+    /\ ix_entries ix = sections p (encode p l)
+    /\ ix_last ix = option_map fst (last_opt (sections p (encode p l)))
+    /\ fs_get fs' (name ++ ext_part) = None
+    /\ (forall g, g <> name ++ ext_part -> g <> name ++ ext_index -> fs_get fs' g = fs_get fs g).
+Proof. exact create_from_byteseries_ok. Qed.
+Print Assumptions C05_index_rebuild.
+(* partial: payload sizes 0..3 (section headers of 3, 4 and 6 lines; there the known finding D6 applies) are judged, not
+   proved; repeated crash-repair-append cycles follow by iterating these theorems with RepH as the invariant (C03). *)
